@@ -413,6 +413,9 @@ func (w *world) opRecoverFund(acc util.Uint160) *op {
 	}
 	n := len(pubs)
 	m := max(max(1, n-(n-1)/2), n-2)
+	if m > 1 && w.r.Chance(1, 8) {
+		m-- // one signature short of the "almost full" committee: must fault
+	}
 	cs := w.net.Multi(m, pubs)
 	if w.isBlocked(cs.ScriptHash()) {
 		return nil
@@ -422,10 +425,14 @@ func (w *world) opRecoverFund(acc util.Uint160) *op {
 		token, kind, model = nativehashes.NeoToken, "policy.recoverFund.neo", true
 	}
 	tx := w.mkTx(callScript(nativehashes.PolicyContract, "recoverFund", acc, token), 0, w.net.Single(p), cs)
-	// the preconditions (lock period in block time, "almost full" committee witness) are outside the model: the
-	// op line is completed with pre=ok|no from the real result in main.go
+	// the preconditions (lock period in block time, "almost full" committee witness) are computed by the model from
+	// the witness on the line (c=m:keys), the block timestamps and the blocking history
+	idx := make([]string, len(pubs))
+	for i, pk := range pubs {
+		idx[i] = fmt.Sprint(w.net.IndexOf(pk))
+	}
 	return &op{kind: kind, tx: tx, votes: true, model: model,
-		line: fmt.Sprintf("tx %s c=- %s %s treasury", sigList(fmt.Sprintf("k%d", p)), kind, w.tok(acc))}
+		line: fmt.Sprintf("tx %s c=%d:%s %s %s treasury", sigList(fmt.Sprintf("k%d", p)), m, strings.Join(idx, "."), kind, w.tok(acc))}
 }
 
 func (w *world) opDeploy(si int) *op {
